@@ -113,3 +113,123 @@ Ltac q2z s :=
          | |- context [Qltb ?x ?y] => erewrite (Qltb_scaled s x y) by typeclasses eauto
          | |- context [Qleb ?x ?y] => erewrite (Qleb_scaled s x y) by typeclasses eauto
          end.
+
+(** * Arrays of naturals (Model/CrossVal.v computes on [list nat]) *)
+From Verde Require Import Model.CrossVal Proofs.CrossValProofs.
+
+Definition vnat (n : nat) : val := VZ (Z.of_nat n).
+Definition arrN (l : list nat) : val := VA (map vnat l).
+
+(** reading an int array as naturals ([None] if an entry is negative or not an int) *)
+Definition unN (l : list val) : option (list nat) :=
+  map_opt (fun v => match v with
+                    | VZ z => if (0 <=? z)%Z then Some (Z.to_nat z) else None
+                    | _ => None end) l.
+
+Fixpoint nondecb (l : list nat) : bool :=
+  match l with
+  | x :: (y :: _) as t => (x <=? y)%nat && nondecb t
+  | _ => true
+  end.
+
+Lemma unN_vnat l : unN (map vnat l) = Some l.
+Proof.
+  unfold unN. induction l as [|x t IH]; cbn; [reflexivity|].
+  cbn in IH. rewrite IH. destruct (Z.leb_spec 0 (Z.of_nat x)); [|lia]. rewrite Nat2Z.id. reflexivity.
+Qed.
+
+Lemma all_scalar_vnat l : all_scalar (map vnat l) = true.
+Proof. unfold all_scalar. induction l; cbn; auto. Qed.
+
+Lemma map_opt_map_some {A B C} (f : B -> option C) (g : A -> B) (h : A -> C) l :
+  (forall x, f (g x) = Some (h x)) -> map_opt f (map g l) = Some (map h l).
+Proof. intros H. induction l as [|x t IH]; cbn; [reflexivity|]. rewrite H, IH. reflexivity. Qed.
+
+Lemma np_array_vnat l : np_array (VA (map vnat l)) = Some (VA (map vnat l)).
+Proof.
+  unfold np_array.
+  assert (R : rect (VA (map vnat l)) = true).
+  { cbn. apply andb_true_intro. split.
+    - induction l; cbn; auto.
+    - destruct l as [|x t]; cbn; [reflexivity|]. induction t; cbn; auto. }
+  rewrite R.
+  assert (H : has_Q (VA (map vnat l)) = false).
+  { change (existsb has_Q (map vnat l) = false). clear R.
+    induction l as [|a t IH]; [reflexivity|]. cbn [map existsb]. rewrite IH. reflexivity. }
+  rewrite H. cbn [to_array]. rewrite (map_opt_map_some _ _ vnat); [reflexivity|]. intros x. reflexivity.
+Qed.
+
+Lemma nondecb_cons_cumsum acc l : nondecb (acc :: cumsum_from acc l) = true.
+Proof.
+  revert acc. induction l as [|x t IH]; intros acc; [reflexivity|].
+  cbn [cumsum_from].
+  change (nondecb (acc :: acc + x :: cumsum_from (acc + x) t)%nat)
+    with ((acc <=? acc + x)%nat && nondecb (acc + x :: cumsum_from (acc + x) t)%nat).
+  rewrite IH. destruct (Nat.leb_spec acc (acc + x)); [reflexivity|lia].
+Qed.
+
+Lemma nondecb_cumsum l : nondecb (cumsum l) = true.
+Proof. unfold cumsum. destruct l as [|x t]; [reflexivity|]. cbn [cumsum_from]. apply nondecb_cons_cumsum. Qed.
+
+Lemma usort_length_nodupb l : (length (usort l) =? length l)%nat = nodupb l.
+Proof.
+  assert (Hincl : incl (usort l) l) by (intros x Hx; apply usort_In; exact Hx).
+  assert (Hle : (length (usort l) <= length l)%nat) by (apply NoDup_incl_length; [apply usort_NoDup|exact Hincl]).
+  destruct (nodupb l) eqn:E.
+  - apply nodupb_NoDup in E. apply Nat.eqb_eq. apply Nat.le_antisymm; [exact Hle|].
+    apply NoDup_incl_length; [exact E|]. intros x Hx. apply usort_In. exact Hx.
+  - apply Nat.eqb_neq. intros Heq.
+    assert (N : NoDup l).
+    { apply (@NoDup_incl_NoDup nat (usort l) l); [apply usort_NoDup|lia|exact Hincl]. }
+    apply nodupb_NoDup in N. congruence.
+Qed.
+
+Lemma nth_val_last {A} (f : A -> val) (l : list A) (d : A) :
+  l <> [] -> nth_val (map f l) (length l - 1) = Some (f (last l d)).
+Proof.
+  induction l as [|x [|y t] IH]; intros H; [contradiction|reflexivity|].
+  replace (length (x :: y :: t) - 1)%nat with (S (length (y :: t) - 1)) by (cbn [length]; lia).
+  change (map f (x :: y :: t)) with (f x :: map f (y :: t)). cbn [nth_val].
+  rewrite IH by discriminate. reflexivity.
+Qed.
+
+Lemma existsb_map {A B} (f : B -> bool) (g : A -> B) l : existsb f (map g l) = existsb (fun x => f (g x)) l.
+Proof. induction l; cbn; congruence. Qed.
+
+Lemma unB_map {A} (f : A -> bool) l : unB (map (fun x => VB (f x)) l) = Some (map f l).
+Proof. unfold unB. apply (map_opt_map_some _ _ f). reflexivity. Qed.
+
+Lemma norm_index_last n : (0 < n)%nat -> norm_index n (-1) = Some (n - 1)%nat.
+Proof.
+  intros H. unfold norm_index. change (-1 <? 0)%Z with true. cbv iota.
+  destruct (Z.ltb_spec (-1 + Z.of_nat n) 0); [lia|].
+  destruct (Z.leb_spec (Z.of_nat n) (-1 + Z.of_nat n)); [lia|].
+  cbn [orb]. f_equal. lia.
+Qed.
+
+(** np.arange(1, parts) * total // parts, on naturals *)
+Lemma ideal_cumsum_eq (L parts : nat) :
+  (1 <= parts)%nat ->
+  map (fun i => VZ ((1 + Z.of_nat i) * Z.of_nat L / Z.of_nat parts)) (seq 0 (Z.to_nat (Z.of_nat parts - 1))) =
+  map vnat (map (fun j => (j * L) / parts)%nat (seq 1 (parts - 1))).
+Proof.
+  intros H. replace (Z.to_nat (Z.of_nat parts - 1)) with (parts - 1)%nat by lia.
+  rewrite <- seq_shift, !map_map. apply map_ext. intros i. unfold vnat. f_equal.
+  rewrite Nat2Z.inj_div, Nat2Z.inj_mul. f_equal. f_equal. lia.
+Qed.
+
+Lemma Zeqb_of_nat a b : (Z.of_nat a =? Z.of_nat b)%Z = (a =? b)%nat.
+Proof. destruct (Z.eqb_spec (Z.of_nat a) (Z.of_nat b)), (Nat.eqb_spec a b); try reflexivity; lia. Qed.
+
+Lemma cmp_bc_eq_vnat idx k :
+  cmp_bc CEq (VA (map vnat idx)) (VZ k) = Some (VA (map (fun n => VB (Z.of_nat n =? k)%Z) idx)).
+Proof.
+  unfold cmp_bc. rewrite (map_opt_map_some _ _ (fun n => VB (Z.of_nat n =? k)%Z)); reflexivity.
+Qed.
+
+Lemma existsb_vnat_eq idx m :
+  existsb (fun b : bool => b) (map (fun n => (Z.of_nat n =? Z.of_nat m)%Z) idx) = existsb (Nat.eqb m) idx.
+Proof.
+  rewrite existsb_map. induction idx as [|x t IH]; cbn [existsb]; [reflexivity|].
+  rewrite IH, Zeqb_of_nat, Nat.eqb_sym. reflexivity.
+Qed.
